@@ -258,4 +258,13 @@ def path_events_of(t):
     return events_of(t)
 
 
-RULES = [("C07-R1", rule_r1), ("C07-R2", rule_r2), ("C07-R3", rule_r3)]
+def rule_c05_protocol(ctx):
+    """"Exactly as many times as the original" includes ZERO times for the statements an interrupt
+    skips: the counter/flag protocol of C05 (every break/continue/return raises the flag the guards
+    of the following statements test) is a necessary condition here too (shared rules C05-R1, C05-R2)."""
+    from . import c05
+
+    return [c05.rule_r1(ctx), c05.rule_r23(ctx)]
+
+
+RULES = [("C07-R1", rule_r1), ("C07-R2", rule_r2), ("C07-R3", rule_r3), ("C05-protocol", rule_c05_protocol)]
